@@ -77,6 +77,10 @@ pub struct SearchRec {
     /// should_stop calls / new nodes seen after the first "stop" answer
     pub calls_after_stop: u64,
     pub nodes_after_stop: u64,
+    /// first poll at which an injected stop made the flag read true: (poll index, nodes)
+    pub forced_at: Option<(u64, u64)>,
+    /// should_stop calls after that poll (a search that ignores the flag keeps calling)
+    pub calls_after_forced: u64,
     pub max_nodes: u64,
     /// poll index at which the GUI's `stop` line was handed to the engine
     pub stop_handed_at_poll: Option<u64>,
@@ -134,6 +138,8 @@ pub struct FaultCounters {
     pub teardown_stops: u64,
     pub stop_lines: u64,
     pub eof: u64,
+    /// simulated time that was skipped by injected stalls / jumps (not searched through)
+    pub skipped_ns: u64,
 }
 
 pub struct Sim {
@@ -253,6 +259,10 @@ impl Sim {
             node_cap_hit: false,
             on_output: None,
         }
+    }
+
+    pub fn note(&mut self, text: String) {
+        self.log(Event::Note(text));
     }
 
     fn log(&mut self, e: Event) {
@@ -522,6 +532,8 @@ pub fn limits(
             first_stop: None,
             calls_after_stop: 0,
             nodes_after_stop: 0,
+            forced_at: None,
+            calls_after_forced: 0,
             max_nodes: 0,
             stop_handed_at_poll: None,
             finished: false,
@@ -582,6 +594,9 @@ pub fn enter_should_stop(epoch: &Epoch, nodes: u64) -> bool {
             }
             if r.first_stop.is_some() {
                 r.calls_after_stop += 1;
+            }
+            if r.forced_at.is_some() {
+                r.calls_after_forced += 1;
             }
             if r.calls > cap {
                 s.node_cap_hit = true;
@@ -658,11 +673,13 @@ pub fn stop_poll(epoch: &Epoch) -> bool {
             match f {
                 ClockFault::Stall { ns } => {
                     s.now_ns += ns;
+                    s.faults.skipped_ns += ns;
                     s.faults.stalls += 1;
                     s.log(Event::Clock(id, poll, format!("stall {ns}ns")));
                 }
                 ClockFault::Jump { ns } => {
                     s.now_ns += ns;
+                    s.faults.skipped_ns += ns;
                     s.faults.jumps += 1;
                     s.log(Event::Clock(id, poll, format!("jump {ns}ns")));
                 }
@@ -683,7 +700,9 @@ pub fn stop_poll(epoch: &Epoch) -> bool {
         let _ = now_before;
         s.log(Event::Poll(id, poll, nodes));
         if forced {
-            if s.searches[epoch.id].first_stop.is_none() {
+            let r = &mut s.searches[epoch.id];
+            if r.forced_at.is_none() {
+                r.forced_at = Some((poll, nodes));
                 s.faults.forced_stops += 1;
             }
         }
